@@ -13,7 +13,7 @@ import UF.Gen.Facts
   The index loops of `splitNextByWhitespace` are kept as index computations (`scanWhile`) followed
   by CHECKED slices, so that "never panics" is a theorem.
 -/
-namespace UF
+namespace UF.H
 open Bytes
 
 def isBlank (c : UInt8) : Bool := c == ch ' ' || c == ch '\t'
@@ -75,7 +75,7 @@ def newHostRule (ext : Ext) (dn : Bytes → Bool) (text : Bytes) (listID : Int) 
           | .ok names => .ok { text := text, listID := listID, hostnames := names, ip := a }
 
 /-- `HostRule.Match` (the single-name fast path, then the loop). -/
-def HostRule.matches (r : HostRule) (hostname : Bytes) : Bool :=
+def hostRuleMatches (r : HostRule) (hostname : Bytes) : Bool :=
   (r.hostnames.length == 1 && r.hostnames.head? == some hostname) ||
   r.hostnames.any (fun h => h == hostname)
 
@@ -139,4 +139,4 @@ def newRuleKind (ext : Ext) (dn : Bytes → Bool) (line : Bytes) (listID : Int) 
     | .error .reject => .network
     | .error .panic => .crash
 
-end UF
+end UF.H
